@@ -3,8 +3,8 @@ use crate::fx::*;
 use crate::util::*;
 use serde_json::{json, Value};
 use std::collections::BTreeMap;
-use ureq_proto::client::flow::RecvResponseResult;
-use ureq_proto::http::{HeaderMap, Version};
+use ureq_proto::client::flow::{Flow, RecvResponseResult};
+use ureq_proto::http::{HeaderMap, Request, Version};
 use ureq_proto::parser::{try_parse_partial_response, try_parse_request, try_parse_response};
 use ureq_proto::{BodyMode, Error};
 
@@ -74,6 +74,8 @@ pub struct HeadOpts {
     pub framing: bool,
     /// standalone parser: any field name goes
     pub wild: bool,
+    /// the first field has a value of 70 000 bytes (a head longer than 64 KiB)
+    pub giant: bool,
 }
 
 pub fn gen_head(rng: &mut StdRng, o: &HeadOpts) -> GenHead {
@@ -105,6 +107,11 @@ pub fn gen_head(rng: &mut StdRng, o: &HeadOpts) -> GenHead {
             w.extend(v);
             locs.push(i + 1);
             (n.to_string(), w, v.to_vec())
+        } else if o.giant && i == 0 {
+            let v = vec![b'v'; 70000];
+            let mut w = b" ".to_vec();
+            w.extend(&v);
+            ("X-Big".to_string(), w, v)
         } else if o.framing && i == 0 && rng.gen_bool(0.5) {
             let v = rng.gen_range(0..5000u32).to_string();
             ("Content-Length".to_string(), format!(" {}", v).into_bytes(), v.into_bytes())
@@ -208,7 +215,7 @@ fn flow_for_offers(g: &GenHead) -> ureq_proto::client::flow::Flow<(), ureq_proto
     if k % 3 == 2 {
         flow_recv_response_after_timeout(["POST", "PUT", "PATCH"][k % 3])
     } else {
-        flow_recv_response(["GET", "POST", "PUT", "OPTIONS", "DELETE"][k % 5])
+        flow_recv_response(["GET", "POST", "PUT", "OPTIONS", "DELETE", "CONNECT", "HEAD", "TRACE"][k % 8])
     }
 }
 
@@ -236,7 +243,7 @@ fn offer_sequence(t: &mut Tracer, g: &GenHead, ps: &[usize], api: &str) {
             }
         }
     } else {
-        let mut c0 = call_recv_response(["GET", "POST", "PATCH", "TRACE"][(g.h + g.fields.len()) % 4]);
+        let mut c0 = call_recv_response(["GET", "POST", "PATCH", "TRACE", "CONNECT", "HEAD"][(g.h + g.fields.len()) % 6]);
         for &p in ps {
             let input = &g.bytes[..p.min(g.bytes.len())];
             match guarded(|| c0.try_response(input)) {
@@ -259,6 +266,51 @@ fn offer_sequence(t: &mut Tracer, g: &GenHead, ps: &[usize], api: &str) {
     }
 }
 
+/// The head is offered to a receiver that has already handed out an interim response, which itself arrived in two
+/// pieces (cut at `cut`): what the receiver remembers from the earlier head must not matter.
+fn offer_after_interim(t: &mut Tracer, g: &GenHead, api: &str, cut: usize) {
+    let interim: Vec<u8> = format!("HTTP/1.1 103 Early Hints\r\nLink: </{}>; rel=preload\r\nLink: </b.css>; rel=preload\r\n\r\n", "a".repeat(150)).into_bytes();
+    let cut = cut.min(interim.len() - 1);
+    let exp = expected_map(&g.fields);
+    let p = g.bytes.len();
+    if api == "flow" {
+        let k = g.h + g.fields.len();
+        let mut f = flow_recv_response(["GET", "POST", "DELETE"][k % 3]);
+        let ok1 = matches!(guarded(|| f.try_response(&interim[..cut])), Some(Ok((0, None))));
+        let ok2 = matches!(guarded(|| f.try_response(&interim)), Some(Ok((n, Some(r)))) if n == interim.len() && r.status() == 103);
+        if !(ok1 && ok2) {
+            t.ev(json!({"ev":"stuck","during":"an interim 103 response arriving in two pieces"}));
+            return;
+        }
+        match guarded(|| f.try_response(&g.bytes)) {
+            None => t.ev(json!({"ev":"panic","during":"try_response after an interim response"})),
+            Some(Err(e)) => t.ev(err_event(api, p, 128, &e)),
+            Some(Ok((c, None))) => t.ev(json!({"ev":"offer","api":api,"p":p,"limit":128,"res":"none","c":c,"head_ok":true,"toomany":false,"seq":true})),
+            Some(Ok((c, Some(r)))) => {
+                let ok = r.status().as_u16() == g.status && version_is_10(r.version()) == g.http10 && actual_map(r.headers()) == exp;
+                t.ev(json!({"ev":"offer","api":api,"p":p,"limit":128,"res":"some","c":c,"head_ok":ok,"toomany":false,"seq":true}));
+            }
+        }
+    } else {
+        let mut c0 = call_recv_response(["GET", "POST"][(g.h + g.fields.len()) % 2]);
+        let ok1 = matches!(guarded(|| c0.try_response(&interim[..cut])), Some(Ok(None)));
+        let ok2 = matches!(guarded(|| c0.try_response(&interim)), Some(Ok(Some((n, r)))) if n == interim.len() && r.status() == 103);
+        if !(ok1 && ok2) {
+            t.ev(json!({"ev":"stuck","during":"an interim 103 response arriving in two pieces (single-call API)"}));
+            return;
+        }
+        match guarded(|| c0.try_response(&g.bytes)) {
+            None => t.ev(json!({"ev":"panic","during":"Call::try_response after an interim response"})),
+            Some(Err(e)) => t.ev(err_event(api, p, 128, &e)),
+            Some(Ok(None)) => t.ev(json!({"ev":"offer","api":api,"p":p,"limit":128,"res":"none","c":0,"head_ok":true,"toomany":false,"seq":true})),
+            Some(Ok(Some((c, r)))) => {
+                let ok = r.status().as_u16() == g.status && version_is_10(r.version()) == g.http10 && actual_map(r.headers()) == exp;
+                t.ev(json!({"ev":"offer","api":api,"p":p,"limit":128,"res":"some","c":c,"head_ok":ok,"toomany":false,"seq":true}));
+            }
+        }
+    }
+}
+
 fn offer_flow(t: &mut Tracer, g: &GenHead, p: usize, api: &str) {
     let input = &g.bytes[..p];
     if api == "flow" {
@@ -273,7 +325,7 @@ fn offer_flow(t: &mut Tracer, g: &GenHead, p: usize, api: &str) {
             }
         }
     } else {
-        let mut c0 = call_recv_response(["GET", "POST", "PATCH", "TRACE"][(g.h + g.fields.len()) % 4]);
+        let mut c0 = call_recv_response(["GET", "POST", "PATCH", "TRACE", "CONNECT", "HEAD"][(g.h + g.fields.len()) % 6]);
         match guarded(|| c0.try_response(input)) {
             None => t.ev(json!({"ev":"panic","during":"Call::try_response"})),
             Some(Err(e)) => t.ev(err_event(api, p, 128, &e)),
@@ -313,7 +365,7 @@ pub fn c05(o: &Opts, t: &mut Tracer) -> Value {
         } else {
             None
         };
-        let ho = HeadOpts { nfields, status, http10: i % 3 == 0, reason: (i % 4) as u8, loc_at, request: None, framing: nfields >= 2 && i % 2 == 0, wild: false };
+        let ho = HeadOpts { nfields, status, http10: i % 3 == 0, reason: (i % 4) as u8, loc_at, request: None, framing: nfields >= 2 && i % 2 == 0, wild: false, giant: false };
         let g = gen_head(&mut rng, &ho);
         selfcheck_head(&g);
         t.case(json!({"ev":"case","comp":"head","lay":g.lay(),"note":format!("status {} fields {}", status, nfields)}));
@@ -356,6 +408,13 @@ pub fn c05(o: &Opts, t: &mut Tracer) -> Value {
             offers += all.len() as u64;
         }
         t.class("offer:sequence");
+        if nfields <= 128 && !(100..200).contains(&status) {
+            for (k, cut) in [30usize, 120, 190, 211, 213].iter().enumerate() {
+                offer_after_interim(t, &g, ["flow", "call"][(i + k) % 2], *cut);
+                offers += 1;
+            }
+            t.class("offer:after-split-interim");
+        }
     }
     json!({"offers": offers})
 }
@@ -384,16 +443,31 @@ pub fn c20(o: &Opts, t: &mut Tracer) -> Value {
                     if limit == 128 && nfields > 100 && o.quick() && (round + kind) % 3 != 0 {
                         continue;
                     }
+                    // now and then a head longer than 64 KiB, probed at selected prefix lengths
+                    let giant = nfields >= 1 && nfields <= 5 && (round + extra + kind) % 6 == 0;
                     let status: u16 = [200u16, 100, 302, 404, 999, 204][rng.gen_range(0..6)];
                     let request = if kind == 1 { Some(METHODS[rng.gen_range(0..9)]) } else { None };
-                    let ho = HeadOpts { nfields, status, http10: rng.gen_bool(0.4), reason: rng.gen_range(0..4), loc_at: if nfields > 0 && rng.gen_bool(0.4) { Some(rng.gen_range(0..nfields)) } else { None }, request, framing: false, wild: true };
+                    let ho = HeadOpts { nfields, status, http10: rng.gen_bool(0.4), reason: rng.gen_range(0..4), loc_at: if nfields > 0 && rng.gen_bool(0.4) { Some(rng.gen_range(0..nfields)) } else { None }, request, framing: false, wild: true, giant };
                     let g = gen_head(&mut rng, &ho);
                     selfcheck_head(&g);
                     t.case(json!({"ev":"case","comp":"head","lay":g.lay(),"note":format!("limit {} fields {} kind {}", limit, nfields, kind)}));
                     t.sig(format!("c20/{}/{}/{}/{}", limit, nfields, kind, round % 4));
                     let step = if nfields > 100 { 5 } else { 1 };
-                    let mut p = 0;
-                    while p <= g.h + 2 {
+                    let mut positions: Vec<usize> = vec![];
+                    if giant {
+                        t.class("c20:giant-head");
+                        positions.extend([0usize, 1, 9, 40, 1000, 32768, 65535, 65536, 65537, 65538, 66000, 69999]);
+                        positions.extend((g.h - 6)..=(g.h + 2));
+                        positions.retain(|&p| p <= g.bytes.len());
+                    } else {
+                        let mut p = 0;
+                        while p <= g.h + 2 {
+                            positions.push(p);
+                            let next = p + step;
+                            p = if step > 1 && next > g.h.saturating_sub(6) && p < g.h.saturating_sub(6) { g.h - 6 } else if p >= g.h.saturating_sub(6) { p + 1 } else { next };
+                        }
+                    }
+                    for &p in &positions {
                         let input = &g.bytes[..p];
                         calls += 1;
                         match kind {
@@ -442,8 +516,6 @@ pub fn c20(o: &Opts, t: &mut Tracer) -> Value {
                                 }
                             }
                         }
-                        let next = p + step;
-                        p = if step > 1 && next > g.h.saturating_sub(6) && p < g.h.saturating_sub(6) { g.h - 6 } else if p >= g.h.saturating_sub(6) { p + 1 } else { next };
                     }
                     if nfields > limit {
                         t.class("c20:over-limit");
@@ -464,6 +536,42 @@ fn mode_json(m: BodyMode) -> (&'static str, u64) {
         BodyMode::Chunked => ("Chunked", 0),
         BodyMode::CloseDelimited => ("Close", 0),
     }
+}
+
+/// one framing cell on a prepared receiver; no event when the head is not answered (incomplete)
+fn extra_cell(t: &mut Tracer, mut f: Flow<(), ureq_proto::client::flow::state::RecvResponse>, method: &str, status: u16, cl: &str, clv: u64, te: &str, head: &[u8]) {
+    let mut e = json!({"ev":"cell","method":method,"status":status,"http10":false,"cl":cl,"clv":limbs(clv),"te":te,"api":"flow",
+                       "res":"none","next":"none","mode":"","moden":limbs(0),"closedelim":false,"interim_ok":true});
+    match guarded(|| f.try_response(head)) {
+        None => {
+            t.ev(json!({"ev":"panic","during":"try_response (framing cell with a history)"}));
+            return;
+        }
+        Some(Err(er)) => {
+            e["res"] = json!("err");
+            e["err"] = json!(format!("{:?}", er));
+        }
+        Some(Ok((_, None))) => return,
+        Some(Ok((_, Some(_)))) => {
+            e["res"] = json!("some");
+            match guarded(|| f.proceed()) {
+                None => {
+                    t.ev(json!({"ev":"panic","during":"RecvResponse::proceed"}));
+                    return;
+                }
+                Some(None) => {}
+                Some(Some(RecvResponseResult::RecvBody(b))) => {
+                    let (m, n) = mode_json(b.body_mode());
+                    e["next"] = json!("RecvBody");
+                    e["mode"] = json!(m);
+                    e["moden"] = limbs(n);
+                }
+                Some(Some(RecvResponseResult::Redirect(_))) => e["next"] = json!("Redirect"),
+                Some(Some(RecvResponseResult::Cleanup(_))) => e["next"] = json!("Cleanup"),
+            }
+        }
+    }
+    t.ev(e);
 }
 
 pub fn c06(o: &Opts, t: &mut Tracer) -> Value {
@@ -637,6 +745,66 @@ pub fn c06(o: &Opts, t: &mut Tracer) -> Value {
             }
         }
         t.sig(format!("cells/{}", method));
+    }
+    // the same decision on receivers with a history
+    t.case(json!({"ev":"case","comp":"cells","note":"receivers with a history"}));
+    let combos: [(&str, &str, u64, &str, &str); 5] = [("absent", "", 0, "absent", ""), ("n", "5", 5, "absent", ""), ("zero", "0", 0, "absent", ""),
+                                                        ("absent", "", 0, "chunked", "chunked"), ("n", "7", 7, "chunked", "Chunked")];
+    for &status in &[200u16, 204, 301, 302, 303, 304, 307, 308, 399, 403, 500] {
+        for (ki, (cl, clv_text, clv, te, te_text)) in combos.iter().enumerate() {
+            let mut fields = String::new();
+            if (300..400).contains(&status) {
+                fields.push_str("Location: /next\r\n");
+            }
+            if *cl != "absent" {
+                fields.push_str(&format!("Content-Length: {}\r\n", clv_text));
+            }
+            if *te != "absent" {
+                fields.push_str(&format!("Transfer-Encoding: {}\r\n", te_text));
+            }
+            let head = format!("HTTP/1.1 {} R\r\n{}\r\n", status, fields);
+            // (1) the response answers a request that was awaiting 100-continue: the Expect is rejected by this very head
+            for method in ["POST", "PUT"] {
+                let req = Request::builder().method(method).uri("http://h.test/p").header("expect", "100-continue").header("content-length", "3").body(()).unwrap();
+                let f = match guarded(|| {
+                    let mut sr = Flow::new(req).unwrap().proceed();
+                    let mut buf = vec![0u8; 4096];
+                    for _ in 0..400 {
+                        if sr.can_proceed() {
+                            break;
+                        }
+                        sr.write(&mut buf).unwrap();
+                    }
+                    match sr.proceed().unwrap().unwrap() {
+                        ureq_proto::client::flow::SendRequestResult::Await100(mut a) => {
+                            a.try_read_100(head.as_bytes()).unwrap();
+                            match a.proceed().unwrap() {
+                                ureq_proto::client::flow::Await100Result::RecvResponse(f) => f,
+                                _ => panic!("harness: the refusal did not lead to RecvResponse"),
+                            }
+                        }
+                        _ => panic!("harness: expected Await100"),
+                    }
+                }) {
+                    Some(f) => f,
+                    None => {
+                        t.ev(json!({"ev":"stuck","during":"reaching the receive state after a rejected Expect"}));
+                        continue;
+                    }
+                };
+                extra_cell(t, f, method, status, cl, *clv, te, head.as_bytes());
+                cells += 1;
+                t.class("cell:after-rejected-expect");
+            }
+            // (2) a 3xx head that stops after its header fields (no final empty line): IF the code answers it at all
+            // (known finding KF1), the framing of the response it returns follows the same rules
+            if (300..400).contains(&status) && status != 304 {
+                let cut = &head.as_bytes()[..head.len() - 2];
+                let f = crate::fx::flow_recv_response_v(["GET", "POST", "DELETE"][ki % 3], ki % 2);
+                extra_cell(t, f, ["GET", "POST", "DELETE"][ki % 3], status, cl, *clv, te, cut);
+                cells += 1;
+            }
+        }
     }
     for st in &statuses {
         t.sig(format!("status/{}", st));
